@@ -382,6 +382,16 @@ def run(ctx):
         ninst += n
         events.append({"ev": "Iter", "it": it, "fused": fused, "bound": b, "slack": slack, "runs": json.loads(runs), "n": n})
         meta.append((prof, byb[b][1], k))
+    for prof in ("dev", "release"):
+        tcat = {}
+        for r, o in zip(recipes, obs[prof]):
+            if o and "us" in o:
+                c = tcat.setdefault(r.get("id", "?").split(":")[0] + ":" + r.get("base", "raw").split(":")[0], [0, 0.0, 0.0])
+                c[0] += 1
+                c[1] += o["us"] / 1e6
+                c[2] = max(c[2], o["us"] / 1e6)
+        log("[c01] %s harness seconds by category (n, total, max): %s" % (prof, {k: (v[0], round(v[1], 1), round(v[2], 2)) for k, v in sorted(tcat.items())}))
+        ctx.cov.setdefault("slowest_recipe_s", {})[prof] = max([v[2] for v in tcat.values()] or [0])
     ctx.cov["evaluations"] = evaluations
     ctx.cov["recipes"] = len(recipes)
     ctx.cov["input_variants_run"] = variants
